@@ -358,90 +358,6 @@ theorem Frame.trans {a b c : BState} (h1 : Frame a b) (h2 : Frame b c) : Frame a
    h2.blkIndent.trans h1.blkIndent, h2.listIndent.trans h1.listIndent, h2.level.trans h1.level,
    h2.nodeKind.trans h1.nodeKind⟩
 
-/-- `0 ≤ line_indent(line)`, the condition under which the tokenizer runs the chain -/
-def IndentOk (s : BState) : Prop := ∃ i, s.lineIndent s.line = .ok i ∧ 0 ≤ i
-
-/-- what the theorems about the container rules need of the nested tokenizer -/
-structure TokSpec (tok : Tok) : Prop where
-  frame : ∀ s s', tok s = .ok s' → Frame s s'
-  mono : ∀ s s', tok s = .ok s' → s.line ≤ s'.line
-  upper : ∀ s s', tok s = .ok s' → s.line ≤ s.lineMax → s'.line ≤ s.lineMax
-  strict : ∀ s s', tok s = .ok s' → s.line < s.lineMax →
-    (s.isEmpty s.line = true ∨ IndentOk s) → s.line < s'.line
-
-/-- a rule answered `true` in real mode: the frame is intact, `line` moved forward and not beyond
-    `line_max` -/
-structure Advanced (s s' : BState) : Prop where
-  frame : Frame s s'
-  lt : s.line < s'.line
-  le : s'.line ≤ s.lineMax
-
-/-! ## 6. progress of the nine rules -/
-
-theorem hr_advanced {s s' : BState} (h : hrRule s false = .ok (true, s')) (hl : s.line < s.lineMax) :
-    Advanced s s' := by
-  unfold hrRule at h
-  crack h
-  refine ⟨⟨rfl, rfl, rfl, rfl, rfl, rfl, rfl⟩, ?_, ?_⟩ <;> simp [BState.push] <;> omega
-
-theorem heading_advanced {s s' : BState} (h : headingRule s false = .ok (true, s'))
-    (hl : s.line < s.lineMax) : Advanced s s' := by
-  unfold headingRule at h
-  crack h
-  refine ⟨⟨rfl, rfl, rfl, rfl, rfl, rfl, rfl⟩, ?_, ?_⟩ <;> simp [BState.push] <;> omega
-
-theorem codeScan_spec (s : BState) (n last r : Nat) (h : codeScan s n last = .ok r) (hn : last ≤ n) :
-    last ≤ r ∧ (last ≤ s.lineMax → r ≤ s.lineMax) := by
-  fun_induction codeScan s n last <;> simp_all <;> omega
-
-theorem code_advanced {s s' : BState} (h : codeRule s false = .ok (true, s')) (hl : s.line < s.lineMax) :
-    Advanced s s' := by
-  unfold codeRule at h
-  crack h
-  have := codeScan_spec _ _ _ _ ‹codeScan _ _ _ = _› (Nat.le_refl _)
-  refine ⟨⟨rfl, rfl, rfl, rfl, rfl, rfl, rfl⟩, ?_, ?_⟩ <;> simp [BState.push] <;> omega
-
-theorem fenceScan_spec (s : BState) (marker : Char) (len n : Nat) (a : Nat) (b : Bool)
-    (h : fenceScan s marker len n = .ok (a, b)) (hn : n < s.lineMax) :
-    n < a ∧ a ≤ s.lineMax ∧ (b = true → a < s.lineMax) := by
-  fun_induction fenceScan s marker len n <;> simp_all <;> omega
-
-theorem fence_advanced {s s' : BState} (h : fenceRule s false = .ok (true, s')) (hl : s.line < s.lineMax) :
-    Advanced s s' := by
-  unfold fenceRule at h
-  crack h
-  have := fenceScan_spec _ _ _ _ _ _ ‹fenceScan _ _ _ _ = _› hl
-  refine ⟨⟨rfl, rfl, rfl, rfl, rfl, rfl, rfl⟩, ?_, ?_⟩ <;> simp [BState.push] <;> split <;> simp_all <;> omega
-
-theorem paragraph_advanced {test : Test} (ht : TestPure test) {fuel : Nat} {s s' : BState}
-    (h : paragraphRule test fuel s false = .ok (true, s')) (hl : s.line < s.lineMax) :
-    Advanced s s' := by
-  unfold paragraphRule at h
-  crack h
-  obtain ⟨h1, h2, h3, _⟩ := lazyScan_spec ht false _ _ _ _ ‹lazyScan _ _ _ _ _ = _›
-  refine ⟨⟨?_, ?_, ?_, ?_, ?_, ?_, ?_⟩, ?_, ?_⟩ <;> simp [BState.push, h1] <;> omega
-
-theorem lheading_advanced {test : Test} (ht : TestPure test) {fuel : Nat} {s s' : BState}
-    (h : lheadingRule test fuel s false = .ok (true, s')) (hl : s.line < s.lineMax) :
-    Advanced s s' := by
-  unfold lheadingRule at h
-  crack h
-  obtain ⟨h1, h2, h3, h4⟩ := lazyScan_spec ht true _ _ _ _ ‹lazyScan _ _ _ _ _ = _›
-  have := h4 ‹_›
-  refine ⟨⟨?_, ?_, ?_, ?_, ?_, ?_, ?_⟩, ?_, ?_⟩ <;> simp [BState.push, h1] <;> omega
-
-/-- the reference rule: frame and strict progress (the upper bound needs the table invariant:
-    `reference_advanced`) -/
-theorem reference_frame_lt {cfg : Cfg} {test : Test} (ht : TestPure test) {fuel : Nat} {s s' : BState}
-    (h : referenceRule cfg test fuel s false = .ok (true, s')) :
-    Frame s s' ∧ s.line < s'.line := by
-  unfold referenceRule at h
-  crack h
-  obtain ⟨h1, h2, h3, _⟩ := lazyScan_spec ht false _ _ _ _ ‹lazyScan _ _ _ _ _ = _›
-  refine ⟨⟨?_, ?_, ?_, ?_, ?_, ?_, ?_⟩, ?_⟩ <;> simp [h1] <;> omega
-
-/-! ### block quote -/
-
 theorem setOff_ok {s s' : BState} {i : Nat} {o : LineOffset} (h : s.setOff i o = .ok s') :
     i < s.offs.length ∧ s' = { s with offs := s.offs.set i o } := by
   unfold BState.setOff at h
@@ -455,6 +371,175 @@ theorem off_ok {s : BState} {i : Nat} {o : LineOffset} (h : s.off i = .ok o) :
   split at h
   · simp at h; simp_all
   · cases h
+
+/-! ### the table invariant -/
+
+/-- an entry of the line table cuts a line-feed-free line `a ++ b` out of the source, with
+    `first_nonspace` at the boundary between `a` and `b` -/
+def LineOk (src : List Char) (o : LineOffset) : Prop :=
+  ∃ p a b q, src = p ++ a ++ b ++ q ∧ Lines.byteLen p = o.lineStart ∧
+    o.firstNonspace = o.lineStart + Lines.byteLen a ∧
+    o.lineEnd = o.lineStart + Lines.byteLen a + Lines.byteLen b ∧ '\n' ∉ a ∧ '\n' ∉ b
+
+/-- every entry of the table is `LineOk` (containers move `first_nonspace` only along the line) -/
+def TableOk (s : BState) : Prop := ∀ (k : Nat) (o : LineOffset), s.offs[k]? = some o → LineOk s.src o
+
+theorem TableOk.of_frame {s s' : BState} (h : TableOk s) (hf : Frame s s') : TableOk s' := by
+  intro k o ho
+  rw [hf.offs] at ho
+  rw [hf.src]
+  exact h k o ho
+
+/-- the rewriting both containers perform: `first_nonspace := line_start + fn` with `fn` returned by
+    `find_indent_of(&src[line_start..line_end], rel)`; `indent_nonspace` is arbitrary -/
+theorem lineOk_rewrite {src : List Char} {o : LineOffset} (h : LineOk src o) {ltxt : List Char}
+    (hl : liftL (Lines.slice src o.lineStart o.lineEnd) = .ok ltxt) {rel ind fn : Nat}
+    (hf : liftL (Lines.findIndentOf ltxt rel) = .ok (ind, fn)) (x : Int) :
+    LineOk src { o with firstNonspace := fn + o.lineStart, indentNonspace := x } := by
+  obtain ⟨p, a, b, q, hsrc, hp, hfn, hle, ha, hb⟩ := h
+  have hl' : Lines.slice src o.lineStart o.lineEnd = .ok ltxt := by
+    cases hs : Lines.slice src o.lineStart o.lineEnd with
+    | error e => rw [hs] at hl; cases e <;> simp [liftL] at hl
+    | ok v => rw [hs] at hl; simp [liftL] at hl; rw [hl]
+  have hf' : Lines.findIndentOf ltxt rel = .ok (ind, fn) := by
+    cases hs : Lines.findIndentOf ltxt rel with
+    | error e => rw [hs] at hf; cases e <;> simp [liftL] at hf
+    | ok v => rw [hs] at hf; simp [liftL] at hf; rw [hf]
+  -- `ltxt = a ++ b`
+  have hab : Lines.slice src o.lineStart o.lineEnd = .ok (a ++ b) := by
+    refine Lines.slice_eq_ok_iff.mpr ⟨p, q, by rw [hsrc]; simp, hp, ?_⟩
+    simp; omega
+  rw [hab] at hl'
+  cases hl'
+  obtain ⟨_, _, hbd, _, _⟩ := Lines.find_indent_bounds _ _ _ _ hf'
+  obtain ⟨a', b', hab', hfa⟩ := Lines.onBoundary_iff.mp hbd
+  have hmem : ∀ c, c ∈ a' ∨ c ∈ b' → c ∈ a ∨ c ∈ b := by
+    intro c hc
+    have : c ∈ a ++ b := by rw [hab']; simpa using hc
+    simpa using this
+  refine ⟨p, a', b', q, ?_, hp, ?_, ?_, ?_, ?_⟩
+  · rw [hsrc]; simp only [List.append_assoc]; rw [← List.append_assoc a b, hab']; simp
+  · simp; omega
+  · have := congrArg Lines.byteLen hab'
+    simp at this ⊢; omega
+  · intro hc; rcases hmem _ (.inl hc) with h | h; exact ha h; exact hb h
+  · intro hc; rcases hmem _ (.inr hc) with h | h; exact ha h; exact hb h
+
+theorem TableOk.setOff {s s' : BState} {m : Nat} {x : LineOffset} (h : TableOk s)
+    (hs : s.setOff m x = .ok s') (hx : LineOk s.src x) : TableOk s' := by
+  obtain ⟨hm, rfl⟩ := setOff_ok hs
+  intro k o ho
+  simp only [List.getElem?_set] at ho
+  split at ho
+  · simp [hm] at ho; subst ho; exact hx
+  · exact h k o ho
+
+/-- changing `indent_nonspace` only -/
+theorem LineOk.indent {src : List Char} {o : LineOffset} (h : LineOk src o) (x : Int) :
+    LineOk src { o with indentNonspace := x } := h
+
+/-- the table of a fresh state -/
+theorem tableOk_fresh (src : List Char) (k : Kind) (refs : Refs.RefMap) :
+    TableOk (BState.fresh src k refs) := by
+  intro i o ho
+  simp only [BState.fresh] at ho ⊢
+  obtain ⟨A, lt, B, _, _, rfl, hsrc, hnt, _⟩ := Lines.split_entry ho
+  have hl := Lines.lead_append_rest lt.1
+  refine ⟨Lines.flat A, Lines.lead lt.1, lt.1.dropWhile Lines.isBlank, lt.2 ++ Lines.flat B, ?_, ?_, ?_, ?_, ?_, ?_⟩
+  · conv => lhs; rw [hsrc, ← hl]
+    simp [List.append_assoc]
+  · simp [Lines.mkOff]
+  · simp [Lines.mkOff, Lines.byteLen_lead]
+  · have := congrArg Lines.byteLen hl
+    simp [Lines.byteLen_lead] at this
+    simp [Lines.mkOff, Lines.byteLen_lead]; omega
+  · intro hc
+    exact (hnt _ ((List.takeWhile_sublist _).subset hc)).1 rfl
+  · intro hc
+    exact (hnt _ ((List.dropWhile_sublist _).subset hc)).1 rfl
+
+/-- `0 ≤ line_indent(line)`, the condition under which the tokenizer runs the chain -/
+def IndentOk (s : BState) : Prop := ∃ i, s.lineIndent s.line = .ok i ∧ 0 ≤ i
+
+/-- what the theorems about the container rules need of the nested tokenizer -/
+structure TokSpec (tok : Tok) : Prop where
+  frame : ∀ s s', tok s = .ok s' → Frame s s'
+  mono : ∀ s s', tok s = .ok s' → s.line ≤ s'.line
+  upper : ∀ s s', tok s = .ok s' → TableOk s → s.line ≤ s.lineMax → s'.line ≤ s.lineMax
+  strict : ∀ s s', tok s = .ok s' → s.line < s.lineMax →
+    (s.isEmpty s.line = true ∨ IndentOk s) → s.line < s'.line
+
+/-- a rule answered `true` in real mode: the frame is intact, `line` moved forward and (on a table
+    that satisfies the invariant) not beyond `line_max` -/
+structure Advanced (s s' : BState) : Prop where
+  frame : Frame s s'
+  lt : s.line < s'.line
+  le : TableOk s → s'.line ≤ s.lineMax
+
+/-! ## 6. progress of the nine rules -/
+
+theorem hr_advanced {s s' : BState} (h : hrRule s false = .ok (true, s')) (hl : s.line < s.lineMax) :
+    Advanced s s' := by
+  unfold hrRule at h
+  crack h
+  refine ⟨⟨rfl, rfl, rfl, rfl, rfl, rfl, rfl⟩, ?_, fun _ => ?_⟩ <;> simp [BState.push] <;> omega
+
+theorem heading_advanced {s s' : BState} (h : headingRule s false = .ok (true, s'))
+    (hl : s.line < s.lineMax) : Advanced s s' := by
+  unfold headingRule at h
+  crack h
+  refine ⟨⟨rfl, rfl, rfl, rfl, rfl, rfl, rfl⟩, ?_, fun _ => ?_⟩ <;> simp [BState.push] <;> omega
+
+theorem codeScan_spec (s : BState) (n last r : Nat) (h : codeScan s n last = .ok r) (hn : last ≤ n) :
+    last ≤ r ∧ (last ≤ s.lineMax → r ≤ s.lineMax) := by
+  fun_induction codeScan s n last <;> simp_all <;> omega
+
+theorem code_advanced {s s' : BState} (h : codeRule s false = .ok (true, s')) (hl : s.line < s.lineMax) :
+    Advanced s s' := by
+  unfold codeRule at h
+  crack h
+  have := codeScan_spec _ _ _ _ ‹codeScan _ _ _ = _› (Nat.le_refl _)
+  refine ⟨⟨rfl, rfl, rfl, rfl, rfl, rfl, rfl⟩, ?_, fun _ => ?_⟩ <;> simp [BState.push] <;> omega
+
+theorem fenceScan_spec (s : BState) (marker : Char) (len n : Nat) (a : Nat) (b : Bool)
+    (h : fenceScan s marker len n = .ok (a, b)) (hn : n < s.lineMax) :
+    n < a ∧ a ≤ s.lineMax ∧ (b = true → a < s.lineMax) := by
+  fun_induction fenceScan s marker len n <;> simp_all <;> omega
+
+theorem fence_advanced {s s' : BState} (h : fenceRule s false = .ok (true, s')) (hl : s.line < s.lineMax) :
+    Advanced s s' := by
+  unfold fenceRule at h
+  crack h
+  have := fenceScan_spec _ _ _ _ _ _ ‹fenceScan _ _ _ _ = _› hl
+  refine ⟨⟨rfl, rfl, rfl, rfl, rfl, rfl, rfl⟩, ?_, fun _ => ?_⟩ <;> simp [BState.push] <;> split <;> simp_all <;> omega
+
+theorem paragraph_advanced {test : Test} (ht : TestPure test) {fuel : Nat} {s s' : BState}
+    (h : paragraphRule test fuel s false = .ok (true, s')) (hl : s.line < s.lineMax) :
+    Advanced s s' := by
+  unfold paragraphRule at h
+  crack h
+  obtain ⟨h1, h2, h3, _⟩ := lazyScan_spec ht false _ _ _ _ ‹lazyScan _ _ _ _ _ = _›
+  refine ⟨⟨?_, ?_, ?_, ?_, ?_, ?_, ?_⟩, ?_, fun _ => ?_⟩ <;> simp [BState.push, h1] <;> omega
+
+theorem lheading_advanced {test : Test} (ht : TestPure test) {fuel : Nat} {s s' : BState}
+    (h : lheadingRule test fuel s false = .ok (true, s')) (hl : s.line < s.lineMax) :
+    Advanced s s' := by
+  unfold lheadingRule at h
+  crack h
+  obtain ⟨h1, h2, h3, h4⟩ := lazyScan_spec ht true _ _ _ _ ‹lazyScan _ _ _ _ _ = _›
+  have := h4 ‹_›
+  refine ⟨⟨?_, ?_, ?_, ?_, ?_, ?_, ?_⟩, ?_, fun _ => ?_⟩ <;> simp [BState.push, h1] <;> omega
+
+/-- the reference rule: frame and strict progress (the upper bound needs the table invariant:
+    `reference_advanced`) -/
+theorem reference_frame_lt {cfg : Cfg} {test : Test} (ht : TestPure test) {fuel : Nat} {s s' : BState}
+    (h : referenceRule cfg test fuel s false = .ok (true, s')) :
+    Frame s s' ∧ s.line < s'.line := by
+  unfold referenceRule at h
+  crack h
+  obtain ⟨h1, h2, h3, _⟩ := lazyScan_spec ht false _ _ _ _ ‹lazyScan _ _ _ _ _ = _›
+  refine ⟨⟨?_, ?_, ?_, ?_, ?_, ?_, ?_⟩, ?_⟩ <;> simp [h1] <;> omega
+/-! ### block quote -/
 
 theorem restoreOffs_set_comm (j : Nat) (x : LineOffset) :
     ∀ (add l : List LineOffset) (i : Nat) (r : List LineOffset), j < i →
@@ -518,21 +603,23 @@ theorem restore_step {offs offs' : List LineOffset} {m : Nat} {o x : LineOffset}
 def BqPost (S : BState) (m : Nat) (old : List LineOffset) (n : Nat) (old' : List LineOffset)
     (S' : BState) : Prop :=
   SameBut S S' ∧ m ≤ n ∧ (m ≤ S.lineMax → n ≤ S.lineMax) ∧
-    (∀ i, i < m → S'.offs[i]? = S.offs[i]?) ∧
+    (∀ i, i < m → S'.offs[i]? = S.offs[i]?) ∧ (TableOk S → TableOk S') ∧
     ∃ add, old' = old ++ add ∧ restoreOffs S'.offs m add = .ok S.offs
 
 theorem bq_stop (S : BState) (m : Nat) (old : List LineOffset) : BqPost S m old m old S :=
-  ⟨SameBut.refl _, Nat.le_refl _, fun h => h, fun _ _ => rfl, [], by simp, rfl⟩
+  ⟨SameBut.refl _, Nat.le_refl _, fun h => h, fun _ _ => rfl, fun h => h, [], by simp, rfl⟩
 
 /-- line `m` is saved and rewritten, the scan goes on behind it -/
 theorem bq_step {S S1 S' : BState} {m n : Nat} {o x : LineOffset} {old old' : List LineOffset}
     (hset : S.setOff m x = .ok S1) (ho : S.off m = .ok o) (hlt : m < S.lineMax)
+    (hx : TableOk S → LineOk S.src x)
     (ih : BqPost S1 (m + 1) (old ++ [o]) n old' S') : BqPost S m old n old' S' := by
-  obtain ⟨h1, h2, h3, h4, add, h5, h6⟩ := ih
+  obtain ⟨h1, h2, h3, h4, h7, add, h5, h6⟩ := ih
+  have h7' : TableOk S → TableOk S' := fun h => h7 (h.setOff hset (hx h))
   have hsb := sameBut_setOff hset
   obtain ⟨hm, rfl⟩ := setOff_ok hset
   have ho := off_ok ho
-  refine ⟨hsb.trans h1, by omega, fun _ => h3 (by simp; omega), ?_, o :: add, by simp [h5], ?_⟩
+  refine ⟨hsb.trans h1, by omega, fun _ => h3 (by simp; omega), ?_, h7', o :: add, by simp [h5], ?_⟩
   · intro i hi
     rw [h4 i (by omega)]
     simp [List.getElem?_set]; omega
@@ -541,12 +628,13 @@ theorem bq_step {S S1 S' : BState} {m n : Nat} {o x : LineOffset} {old old' : Li
 /-- the scan stops at line `m`, which is saved and rewritten (a terminating rule under a non-zero
     block indent) -/
 theorem bq_last {S S1 : BState} {m : Nat} {o x : LineOffset} {old : List LineOffset}
-    (hset : S.setOff m x = .ok S1) (ho : S.off m = .ok o) :
+    (hset : S.setOff m x = .ok S1) (ho : S.off m = .ok o) (hx : TableOk S → LineOk S.src x) :
     BqPost S m old m (old ++ [o]) S1 := by
   have hsb := sameBut_setOff hset
+  have h7 : TableOk S → TableOk S1 := fun h => h.setOff hset (hx h)
   obtain ⟨hm, rfl⟩ := setOff_ok hset
   have ho := off_ok ho
-  refine ⟨hsb, Nat.le_refl _, fun h => h, ?_, [o], rfl, ?_⟩
+  refine ⟨hsb, Nat.le_refl _, fun h => h, ?_, h7, [o], rfl, ?_⟩
   · intro i hi
     simp [List.getElem?_set]; omega
   · exact restore_step (x := x) ho (by simp) (by simp [restoreOffs])
@@ -570,19 +658,24 @@ theorem bqScan_spec {test : Test} (ht : TestPure test) :
     all_goals (try subst_vars)
     · exact bq_stop _ _ _
     · exact bq_stop _ _ _
-    · exact bq_step ‹BState.setOff _ _ _ = _› ‹BState.off _ _ = _› (by omega) (ih _ _ _ _ _ _ _ h)
+    · refine bq_step ‹BState.setOff _ _ _ = _› ‹BState.off _ _ = _› (by omega) ?_ (ih _ _ _ _ _ _ _ h)
+      intro hT
+      exact lineOk_rewrite (hT _ _ (off_ok ‹BState.off _ _ = _›)) ‹liftL (Lines.slice _ _ _) = _›
+        (fn := _) (ind := _) ‹liftL (Lines.findIndentOf _ _) = _› _
     · exact bq_stop _ _ _
     · -- a terminating rule, `blk_indent ≠ 0`
       have e := ht _ _ ‹test _ = _›
       simp only [e] at *
-      exact BqPost.of_line (bq_last ‹BState.setOff _ _ _ = _› ‹BState.off _ _ = _›)
+      exact BqPost.of_line (bq_last ‹BState.setOff _ _ _ = _› ‹BState.off _ _ = _›
+        (fun hT => (hT _ _ (off_ok ‹BState.off _ _ = _›)).indent _))
     · have e := ht _ _ ‹test _ = _›
       rw [e]
       exact BqPost.of_line (bq_stop _ _ _)
     · have e := ht _ _ ‹test _ = _›
       simp only [e] at *
       exact BqPost.of_line
-        (bq_step ‹BState.setOff _ _ _ = _› ‹BState.off _ _ = _› (by simp; omega) (ih _ _ _ _ _ _ _ h))
+        (bq_step ‹BState.setOff _ _ _ = _› ‹BState.off _ _ = _› (by simp; omega)
+          (fun hT => (hT _ _ (off_ok ‹BState.off _ _ = _›)).indent _) (ih _ _ _ _ _ _ _ h))
 
 /-- the first line of a quote (`>` at a non-negative indent) is inside it: the scan gets past it
     and leaves a non-negative `indent_nonspace` there -/
@@ -605,7 +698,7 @@ theorem bqScan_first {test : Test} (ht : TestPure test) {fuel : Nat} {S : BState
         Bool.false_eq_true, not_false_eq_true, and_self] at h
       crack h
       obtain ⟨hm, rfl⟩ := setOff_ok ‹BState.setOff _ _ _ = _›
-      obtain ⟨_, h2, _, h4, _⟩ := bqScan_spec ht _ _ _ _ _ _ _ _ h
+      obtain ⟨_, h2, _, h4, _, _⟩ := bqScan_spec ht _ _ _ _ _ _ _ _ h
       refine ⟨by omega, ?_⟩
       rw [h4 m (by omega)]
       simp [List.getElem?_set, hm]
@@ -623,13 +716,13 @@ theorem blockquote_advanced {tok : Tok} {test : Test} (hk : TokSpec tok) (ht : T
   rename_i ind hind _ line hline hhead scan hscan s2 htok lvl hlvl offs hoffs e he r hr
   have hhead : line.head? = some '>' := by simpa using hhead
   obtain ⟨n, old', S'⟩ := scan
-  obtain ⟨hsb, hmn, hup, _, add, hadd, hrest⟩ := bqScan_spec ht _ _ _ _ _ _ _ _ hscan
+  obtain ⟨hsb, hmn, hup, _, hT, add, hadd, hrest⟩ := bqScan_spec ht _ _ _ _ _ _ _ _ hscan
   obtain ⟨hlt, o, ho, ho0⟩ := bqScan_first ht hscan hl hi hi0 hline hhead
   simp only at htok hlvl hoffs he hr ⊢
   have hfr := hk.frame _ _ htok
   have hstrict := hk.strict _ _ htok (by simpa using hlt)
     (Or.inr ⟨_, lineIndent_of_off ho, by simpa using ho0⟩)
-  have hupper := hk.upper _ _ htok (by simpa using hmn)
+  have hupper := fun h => hk.upper _ _ htok h (by simpa using hmn)
   simp only at hstrict hupper
   obtain ⟨_, rfl⟩ := psub_ok hlvl
   simp only [List.nil_append] at hadd
@@ -647,8 +740,163 @@ theorem blockquote_advanced {tok : Tok} {test : Test} (hk : TokSpec tok) (ht : T
   · simp [hfr.level, hsb.level]
   · simp [hsb.nodeKind]
   · simpa using hstrict
-  · have := hup (by omega)
-    simp at hupper ⊢
+  · intro hTs
+    have := hup (by omega)
+    have := hupper (fun k o ho => hT hTs k o ho)
+    simp at this ⊢
     omega
+/-! ### list -/
+
+theorem listItemBody_spec {tok : Tok} (hk : TokSpec tok) {S2 S3 : BState} {m : Nat} {reachedEnd : Bool}
+    (h : listItemBody tok S2 m reachedEnd = .ok S3) (hline : S2.line = m) (hlt : m < S2.lineMax)
+    (hcond : S2.isEmpty m = true ∨ IndentOk { S2 with line := m }) :
+    Frame S2 S3 ∧ m < S3.line ∧ (TableOk S2 → S3.line ≤ S2.lineMax) := by
+  unfold listItemBody at h
+  crack h
+  · refine ⟨⟨rfl, rfl, rfl, rfl, rfl, rfl, rfl⟩, ?_, fun _ => ?_⟩ <;> simp <;> split <;> omega
+  · rename_i s2 htok lvl hlvl
+    have hfr := hk.frame _ _ htok
+    have hst := hk.strict _ _ htok (by simpa using hlt) (by
+      rcases hcond with h | h
+      · left; exact h
+      · right
+        obtain ⟨i, h1, h2⟩ := h
+        exact ⟨i, h1, h2⟩)
+    have hup := fun h => hk.upper _ _ htok h (by simp; omega)
+    obtain ⟨_, rfl⟩ := psub_ok hlvl
+    refine ⟨⟨?_, ?_, ?_, ?_, ?_, ?_, ?_⟩, ?_, ?_⟩
+    · simp [hfr.src]
+    · simp [hfr.offs]
+    · simp [hfr.lineMax]
+    · simp [hfr.blkIndent]
+    · simp [hfr.listIndent]
+    · simp [hfr.level]
+    · simp [hfr.nodeKind]
+    · simpa using hst
+    · intro hT
+      simpa using hup (fun k o ho => hT k o ho)
+
+
+theorem isEmpty_of_off {s : BState} {m : Nat} {o : LineOffset} (h : s.offs[m]? = some o)
+    (he : o.firstNonspace ≥ o.lineEnd) : s.isEmpty m = true := by
+  simp [BState.isEmpty, Lines.isEmpty, h, he]
+
+theorem item_cond {S2 : BState} {m : Nat} {x : LineOffset} (hx : S2.offs[m]? = some x)
+    (h : x.firstNonspace ≥ x.lineEnd ∨ (S2.blkIndent : Int) ≤ x.indentNonspace) :
+    S2.isEmpty m = true ∨ IndentOk { S2 with line := m } := by
+  rcases h with h | h
+  · left; exact isEmpty_of_off hx h
+  · right
+    exact ⟨_, lineIndent_of_off (s := { S2 with line := m }) hx, by simp; omega⟩
+
+theorem listItem_spec {tok : Tok} (hk : TokSpec tok) {S S' : BState} {m pos : Nat} {pee tight pee' tight' : Bool}
+    (h : listItem tok S m pos pee tight = .ok (S', tight', pee')) (hline : S.line = m)
+    (hlt : m < S.lineMax) :
+    Frame S S' ∧ m < S'.line ∧ (TableOk S → S'.line ≤ S.lineMax) := by
+  unfold listItem at h
+  crack h
+  rename_i o ho hneg ltxt hltxt rel _ fi hfi lineLen hlen S2 hS2 S3 hbody _ li hli S5 hS5 e _ r _ hS' _ _
+  subst hS'
+  obtain ⟨hm, hS2eq⟩ := setOff_ok hS2
+  obtain ⟨hm5, rfl⟩ := setOff_ok hS5
+  have ho' := off_ok ho
+  obtain ⟨hle, rfl⟩ := psub_ok hlen
+  -- the item's first line in the nested state: empty, or at a non-negative indent
+  have hcond : S2.isEmpty m = true ∨ IndentOk { S2 with line := m } := by
+    refine item_cond (x := _) (by rw [hS2eq]; simp [hm]; rfl) ?_
+    rw [hS2eq]
+    by_cases hre : (fi.2 == o.lineEnd - o.lineStart) = true
+    · left
+      simp at hre
+      simp [hre]; omega
+    · right
+      have h4 : (if fi.1 > 4 then 1 else fi.1) ≤ fi.1 := by split <;> omega
+      simp only [hre, if_false, Bool.false_eq_true]
+      generalize (if fi.1 > 4 then 1 else fi.1) = k at h4
+      omega
+  obtain ⟨hfr, hlt', hle'⟩ := listItemBody_spec hk hbody (by rw [hS2eq]; exact hline)
+    (by rw [hS2eq]; exact hlt) hcond
+  have hli' : some li = some S.blkIndent := by rw [← hli, hfr.listIndent, hS2eq]
+  simp only [Option.some.injEq] at hli'
+  refine ⟨⟨?_, ?_, ?_, ?_, ?_, ?_, ?_⟩, ?_, ?_⟩
+  · simp [hfr.src, hS2eq]
+  · simp [hfr.offs, hS2eq]
+    rw [← (List.getElem?_eq_some_iff.mp ho').2]
+    exact List.set_getElem_self _
+  · simp [hfr.lineMax, hS2eq]
+  · simp [hli']
+  · simp
+  · simp [hfr.level, hS2eq]
+  · simp
+  · simpa using hlt'
+  · intro hT
+    have hT2 : TableOk S2 := by
+      refine TableOk.setOff (s := { S with nodeKind := .listItem, children := [], listIndent := some S.blkIndent, blkIndent := _, tight := true }) (fun k o ho => hT k o ho) hS2 ?_
+      exact lineOk_rewrite (hT _ _ ho') hltxt (ind := fi.1) (fn := fi.2) hfi _
+    simpa [hS2eq] using hle' hT2
+
+theorem listContinue_spec {test : Test} (ht : TestPure test) {ordered : Bool} {mc : Char}
+    {S S' : BState} {n : Nat} {c : Option Nat} (h : listContinue test ordered mc S n = .ok (c, S')) :
+    S' = S ∧ (c ≠ none → n < S.lineMax) := by
+  unfold listContinue at h
+  crack h
+  all_goals (try subst_vars)
+  all_goals (try (have e := ht _ _ ‹test _ = _›))
+  all_goals (try simp only [e, set_line_back] at *)
+  all_goals simp_all
+  all_goals omega
+
+theorem listLoop_spec {tok : Tok} {test : Test} (hk : TokSpec tok) (ht : TestPure test)
+    {ordered : Bool} {mc : Char} :
+    ∀ (fuel : Nat) (S : BState) (m pos : Nat) (pee tight : Bool) (n : Nat) (tight' : Bool) (S' : BState),
+      listLoop tok test ordered mc fuel S m pos pee tight = .ok (n, tight', S') →
+      S.line = m → m < S.lineMax →
+      Frame S S' ∧ S'.line = n ∧ m < n ∧ (TableOk S → n ≤ S.lineMax) := by
+  intro fuel
+  induction fuel with
+  | zero => intro S m pos pee tight n tight' S' h; simp [listLoop] at h
+  | succ f ih =>
+    intro S m pos pee tight n tight' S' h hline hlt
+    simp only [listLoop] at h
+    crack h
+    all_goals (try subst_vars)
+    · rename_i wi wc hc _ hnone _ hitem
+      obtain ⟨S1, t1, p1⟩ := wi
+      obtain ⟨c, S2⟩ := wc
+      obtain ⟨hfr, h1, h2⟩ := listItem_spec hk hitem rfl hlt
+      obtain ⟨rfl, _⟩ := listContinue_spec ht hc
+      exact ⟨hfr, rfl, h1, h2⟩
+    · rename_i wi wc hc _ p hsome _ hitem
+      obtain ⟨S1, t1, p1⟩ := wi
+      obtain ⟨c, S2⟩ := wc
+      obtain ⟨hfr, h1, h2⟩ := listItem_spec hk hitem rfl hlt
+      obtain ⟨rfl, hc2⟩ := listContinue_spec ht hc
+      simp only at hsome h hc2
+      have hlt2 := hc2 (by rw [hsome]; simp)
+      obtain ⟨hfr2, h3, h4, h5⟩ := ih _ _ _ _ _ _ _ _ h rfl hlt2
+      exact ⟨hfr.trans hfr2, h3, by omega, fun hT => by have := h5 (hT.of_frame hfr); rw [hfr.lineMax] at this; exact this⟩
+
+theorem list_advanced {tok : Tok} {test : Test} (hk : TokSpec tok) (ht : TestPure test)
+    {fuel : Nat} {s s' : BState} (h : listRule tok test fuel s false = .ok (true, s'))
+    (hl : s.line < s.lineMax) : Advanced s s' := by
+  unfold listRule at h
+  crack h
+  all_goals (
+    rename_i wl hloop _ _ _ _ _ _ _ _
+    obtain ⟨n, t, S'⟩ := wl
+    obtain ⟨hfr, h1, h2, h3⟩ := listLoop_spec hk ht _ _ _ _ _ _ _ _ _ hloop rfl hl
+    obtain ⟨_, rfl⟩ := psub_ok ‹psub S'.level 1 = _›
+    refine ⟨⟨?_, ?_, ?_, ?_, ?_, ?_, ?_⟩, ?_, ?_⟩
+    · simp [hfr.src]
+    · simp [hfr.offs]
+    · simp [hfr.lineMax]
+    · simp [hfr.blkIndent]
+    · simp [hfr.listIndent]
+    · simp [hfr.level]
+    · simp
+    · simp [h1]; exact h2
+    · intro hT
+      simp [h1]
+      exact h3 (fun k o ho => hT k o ho))
 
 end MdIt.Block
